@@ -205,8 +205,8 @@ impl Prop for C15 {
   }
   fn legs(&self, _tier: Tier) -> Vec<Leg<Case>> {
     vec![
-      Leg { name: "values", source: Cases::Generated(Box::new(value_strategy), 60_000, 2_000_000) },
-      Leg { name: "documents", source: Cases::Generated(Box::new(doc_strategy), 60_000, 2_000_000) },
+      Leg { name: "values", source: Cases::Generated(Box::new(value_strategy), 300_000, 4_000_000) },
+      Leg { name: "documents", source: Cases::Generated(Box::new(doc_strategy), 300_000, 4_000_000) },
     ]
   }
   fn check(&self, case: &Case) -> CheckResult {
